@@ -37,14 +37,19 @@ type Request struct {
 }
 
 type Case struct {
-	Cfg    Config    `json:"cfg"`
-	Routes []Route   `json:"routes"`
-	Reqs   []Request `json:"reqs"`
+	// Subject: "router" = a stand-alone router; "gnew-override" = a router made by Group.New whose own
+	// CORS option overrides a different one given to NewGroup; "gnew-inherit" = Group.New without an
+	// own CORS option, so the group's (= Cfg) applies.
+	Subject  string    `json:"subject"`
+	GroupCfg *Config   `json:"group_cfg,omitempty"`
+	Cfg      Config    `json:"cfg"`
+	Routes   []Route   `json:"routes"`
+	Reqs     []Request `json:"reqs"`
 }
 
 var (
 	originPool = []string{"https://a.example", "https://b.example", "http://c.example:8080", "null"}
-	headerPool = []string{"Content-Type", "X-Custom", "Authorization", "X-Api-Key", "Accept"}
+	headerPool = []string{"Content-Type", "X-Custom", "Authorization", "X-Api-Key", "x-token", "content-language", "X-Token-2", "Accept"}
 	patterns   = []string{"/a", "/b/{id}", "/c"}
 	witness    = map[string]string{"/a": "/a", "/b/{id}": "/b/7", "/c": "/c"}
 	methodSets = [][]string{{"GET"}, {"POST"}, {"GET", "POST"}, {"DELETE", "PUT"}, {"GET", "PATCH", "DELETE"}, nil}
@@ -80,7 +85,7 @@ func Gen(t *rapid.T) Case {
 	case 1:
 		c.Cfg.AllowHeaders = []string{"*"}
 	default:
-		c.Cfg.AllowHeaders = rapid.SliceOfNDistinct(rapid.SampledFrom(headerPool[:4]), 1, 3, rapid.ID[string]).Draw(t, "ah")
+		c.Cfg.AllowHeaders = rapid.SliceOfNDistinct(rapid.SampledFrom(headerPool[:7]), 1, 4, rapid.ID[string]).Draw(t, "ah")
 	}
 	if rapid.Bool().Draw(t, "hasExposed") {
 		c.Cfg.Exposed = rapid.SliceOfNDistinct(rapid.SampledFrom([]string{"X-Total", "Etag", "X-Rate"}), 1, 2, rapid.ID[string]).Draw(t, "exposed")
@@ -93,6 +98,11 @@ func Gen(t *rapid.T) Case {
 		}
 	}
 	c.Cfg.Trace = rapid.IntRange(0, 4).Draw(t, "trace") == 0
+	c.Subject = rapid.SampledFrom([]string{"router", "router", "gnew-override", "gnew-inherit"}).Draw(t, "subject")
+	if c.Subject == "gnew-override" {
+		// what the group was given must not matter: a permissive list with credentials
+		c.GroupCfg = &Config{Origins: append([]string{}, originPool[:3]...), AllowHeaders: []string{"*"}, Exposed: []string{"X-Group"}, MaxAge: 7, Cred: true}
+	}
 	perm := rapid.Permutation(patterns).Draw(t, "routes")
 	for _, p := range perm[:rapid.IntRange(1, 3).Draw(t, "nroutes")] {
 		c.Routes = append(c.Routes, Route{Pattern: p, Methods: rapid.SampledFrom(methodSets).Draw(t, "rmethods")})
@@ -153,6 +163,15 @@ func Gen(t *rapid.T) Case {
 				var h string
 				if len(c.Cfg.AllowHeaders) > 0 && c.Cfg.AllowHeaders[0] != "*" && rapid.IntRange(0, 3).Draw(t, "acrhAllowed") > 0 {
 					h = rapid.SampledFrom(c.Cfg.AllowHeaders).Draw(t, "acrhFromCfg")
+				} else if len(c.Cfg.AllowHeaders) > 0 && c.Cfg.AllowHeaders[0] != "*" && rapid.IntRange(0, 2).Draw(t, "acrhNear") == 0 {
+					// near misses: a fragment or an extension of an allowed name
+					base := rapid.SampledFrom(c.Cfg.AllowHeaders).Draw(t, "acrhNearBase")
+					lo := rapid.IntRange(0, len(base)-1).Draw(t, "nearLo")
+					hi := rapid.IntRange(lo+1, len(base)).Draw(t, "nearHi")
+					h = strings.Trim(base[lo:hi], "-")
+					if h == "" || rapid.IntRange(0, 3).Draw(t, "nearExt") == 0 {
+						h = base + "-x"
+					}
 				} else {
 					h = rapid.SampledFrom(headerPool).Draw(t, "acrhAny")
 				}
@@ -170,20 +189,45 @@ func Gen(t *rapid.T) Case {
 // World is the router and model built from a case.
 type World struct {
 	R *rig.Router
+	H http.Handler // what requests are sent to (the router or its group)
 	M *ref.Table
+}
+
+func corsOpt(c Config) mux.Option {
+	return mux.WithCORS(append([]string{}, c.Origins...), append([]string{}, c.AllowHeaders...), append([]string{}, c.Exposed...), c.MaxAge, c.Cred)
 }
 
 func Build(c Case) *World {
 	env := rig.NewEnv()
-	r := env.NewRouter("r", rig.Opts{Trace: c.Cfg.Trace, Extra: []mux.Option{
-		mux.WithCORS(append([]string{}, c.Cfg.Origins...), append([]string{}, c.Cfg.AllowHeaders...), append([]string{}, c.Cfg.Exposed...), c.Cfg.MaxAge, c.Cfg.Cred)}})
+	var r *rig.Router
+	var front http.Handler
+	switch c.Subject {
+	case "gnew-override", "gnew-inherit":
+		gcfg := c.Cfg
+		if c.GroupCfg != nil {
+			gcfg = *c.GroupCfg
+		}
+		g := env.NewGroup(corsOpt(gcfg))
+		var own []mux.Option
+		if c.Cfg.Trace {
+			own, _ = env.Options(rig.Opts{Trace: true})
+		}
+		if c.Subject == "gnew-override" {
+			own = append(own, corsOpt(c.Cfg))
+		}
+		r = &rig.Router{Router: g.New("r", nil, own...), Env: env, NotFound: g.NotFound}
+		front = g
+	default:
+		r = env.NewRouter("r", rig.Opts{Trace: c.Cfg.Trace, Extra: []mux.Option{corsOpt(c.Cfg)}})
+		front = r
+	}
 	m := ref.NewTable(c.Cfg.Trace)
 	for _, rt := range c.Routes {
 		h := env.NewH()
 		r.Handle(rt.Pattern, h, nil, rt.Methods...)
 		m.Handle(rt.Pattern, h.ID, rt.Methods)
 	}
-	return &World{R: r, M: m}
+	return &World{R: r, H: front, M: m}
 }
 
 func (w *World) Serve(q Request) *rig.Outcome {
@@ -197,7 +241,7 @@ func (w *World) Serve(q Request) *rig.Outcome {
 	if q.ACRH != nil {
 		hdr["Access-Control-Request-Headers"] = []string{*q.ACRH}
 	}
-	return rig.Serve(w.R, rig.Req{Method: q.Method, Path: q.Path, Header: hdr})
+	return rig.Serve(w.H, rig.Req{Method: q.Method, Path: q.Path, Header: hdr})
 }
 
 // Facts the reference derives about one request.
